@@ -118,7 +118,7 @@ def genStep (c : Ctx) (k : Nat) : Except GenErr StepCode :=
           else none
       else none
     let form : JoinForm := match joiner with
-      | some j => .call j
+      | some j => if multi && c.joiner.isNone && c.kind.isAsync then .futJoin j c.kind.isTry else .call j
       | none => if c.kind.isAsync then .awaitCat else .tuple
     let threads := !c.kind.isAsync && c.kind.isSpawn && decide (c.activeCount k ≥ 2)
     .ok {
